@@ -11,6 +11,7 @@ import NumbersModel.Lemmas.Grid
 import NumbersModel.Lemmas.Cache
 import NumbersModel.Lemmas.TablePipeline
 import NumbersModel.Lemmas.TrEdit
+import NumbersModel.Lemmas.TrCache
 namespace NumbersModel.Props.C03
 open NumbersModel NumbersModel.Grid
 
@@ -291,6 +292,26 @@ theorem src_edit_refused_early (empty : α) (s : State α) (n : Int) (start : Op
   · intro h; unfold addCol; rw [add_column_args_eq_model, h]; rfl
   · intro h; rw [delete_row_args_eq_model, h]; rfl
   · intro h; rw [delete_column_args_eq_model, h]; rfl
+
+/-- the memoising wrapper translated from `numbers_cache.py` (`inner_multi_args`; the instance's `_cache[method]` dict is
+    threaded as a state variable): one call returns what the model's `memoCall` returns and leaves the same store content —
+    so `memo_transparent` is a statement about the wrapper as the source has it. -/
+theorem src_memo_call {β} (f : List Int → β) (store : Cache.Store β) (args : List Int) :
+    ∃ st', cache_inner_multi_args f (args.length : Int) store args = .ok ((Cache.memoCall f store args).1, st') ∧
+      ∀ k, Cache.lookup st' k = Cache.lookup (Cache.memoCall f store args).2 k :=
+  cache_inner_eq_model f store args
+
+/-- a second call with the same arguments does not call the method again: it returns the stored value and leaves the store
+    as it is. -/
+theorem src_memo_hit {β} (f g : List Int → β) (store : Cache.Store β) (args : List Int) (v : β)
+    (h : Cache.lookup store (Cache.cacheKey args) = some v) :
+    ∃ st', cache_inner_multi_args g (args.length : Int) store args = .ok (v, st') ∧ ∀ k, Cache.lookup st' k = Cache.lookup store k := by
+  obtain ⟨st', h1, h2⟩ := cache_inner_eq_model g store args
+  have hm : Cache.memoCall g store args = (v, store) := by simp [Cache.memoCall, h]
+  rw [hm] at h1 h2
+  exact ⟨st', h1, h2⟩
+
+example : (cache_inner_multi_args (fun a => a.sum) 2 [] [1, 2]) = .ok (3, [("1.2".toList, 3)]) := by decide +kernel
 
 example : add_row_args 3 2 (some 1) = .ok 1 ∧ add_row_args 3 2 none = .ok 3 ∧ add_row_args 3 (-1) none = .error .IndexError
     ∧ delete_row_args 3 3 none = .error .IndexError ∧ delete_row_args 3 2 (some 1) = .ok () := by decide
